@@ -176,6 +176,10 @@ def init_flag(ctx):
                           'state still sees init (or the first one does not)', fi)
             else:
                 ctx.undecided(f'{fi.qualname}:init stored', s, f'value `{src(v) if v is not None else None}`', fi)
+    cyc = _m(m, 'cycle')
+    cleared = [s for t, v, s in attr_stores(cyc.node) if t.attr == 'init' and isinstance(v, ast.Constant) and v.value is False]
+    ctx.check(bool(cleared), f'{cyc.qualname}:init cleared after the first call', cyc.node, 'self.init = False exists in cycle',
+              'cycle never clears the init flag: every call of a state sees init=True', cyc)
     ns = _m(m, '_new_state')
     ok = any(t.attr == 'init' for t, v, s in attr_stores(ns.node)) and any(t.attr == 'statefunc' for t, v, s in attr_stores(ns.node))
     ctx.check(ok, f'{ns.qualname}:sets init and statefunc', ns.node, 'transition sets init and statefunc together',
